@@ -338,11 +338,13 @@ def build_edge(c):
 
 
 def _build_edge(c):
+    """SE(2) headings are handed to the constructors with extra whole turns (up to +-5) now and then."""
     if c['fam'] == 'odo':
         k = c['k']
-        v1 = Vertex(1, B.pose(k, c['t1'], c['r1']))
-        v2 = Vertex(2, B.pose(k, c['t2'], c['r2']))
-        e = EdgeOdometry([1, 2], B.info(c['W']), B.pose(k, c['tz'], c['rz']), [v1, v2])
+        sh = [(0, 0, 0), (2, 0, 0), (0, -3, 0), (0, 0, 5), (-4, 2, -2), (0, 0, 0)][(int(sum(c['t2'])) + int(sum(c['tz']))) % 6] if k == 'SE2' else (0, 0, 0)
+        v1 = Vertex(1, B.pose(k, c['t1'], c['r1'], shift=sh[0]))
+        v2 = Vertex(2, B.pose(k, c['t2'], c['r2'], shift=sh[1]))
+        e = EdgeOdometry([1, 2], B.info(c['W']), B.pose(k, c['tz'], c['rz'], shift=sh[2]), [v1, v2])
     else:
         v1 = Vertex(1, B.pose(c['k'], c['t1'], c['r1']))
         v2 = Vertex(2, B.pose(c['k2'], c['t2']))
